@@ -248,6 +248,20 @@ func (stack *Stack) BindSymbol(sym *SexpSymbol, expr Sexp) error {
 	return nil
 }
 
+// symbolInTopScope returns what sym is bound to in the scope on top
+// of the stack, if it is bound there.
+func (stack *Stack) symbolInTopScope(sym *SexpSymbol) (Sexp, bool) {
+	if stack.IsEmpty() {
+		return SexpNull, false
+	}
+	scope, isScope := stack.elements[stack.tos].(*Scope)
+	if !isScope {
+		return SexpNull, false
+	}
+	expr, present := scope.Map[sym.number]
+	return expr, present
+}
+
 func (stack *Stack) DeleteSymbolFromTopOfStackScope(sym *SexpSymbol) error {
 	if stack.IsEmpty() {
 		panic("empty stack!!")
